@@ -432,7 +432,7 @@ class LoaderGroup(Generic[_K, _L]):
 
         Parameters
         ----------
-        mask : np.ndarray, optional
+        mask : np.ndarray, ImageProvider or ImageConverter, optional
             Mask image
         seed : random seed, default is 0
             Random seed used to split subtomograms.
@@ -446,15 +446,27 @@ class LoaderGroup(Generic[_K, _L]):
         pl.DataFrame
             A data frame with FSC results.
         """
+        from acryo.pipe._classes import ImageProvider, ImageConverter
+
+        scales = {key: loader.scale for key, loader in self}
         if mask is None:
             _mask = 1
             output_shape = None
         elif isinstance(mask, np.ndarray):
             _mask = mask
             output_shape = mask.shape
-        else:
-            _mask = 1
+        elif isinstance(mask, ImageProvider):
+            # NOTE: providers are evaluated at the scale of each loader.
+            _mask = {
+                key: np.asarray(mask(scale), dtype=np.float32)
+                for key, scale in scales.items()
+            }
+            output_shape = next(iter(_mask.values())).shape if _mask else None
+        elif isinstance(mask, ImageConverter):
+            _mask = mask
             output_shape = None
+        else:
+            raise TypeError(f"Invalid mask type: {type(mask)}")
 
         if n_set <= 0:
             raise ValueError("'n_set' must be positive.")
@@ -469,10 +481,17 @@ class LoaderGroup(Generic[_K, _L]):
         for key, img in imgs.items():
             fsc_all: dict[str, np.ndarray] = {}
             freq = np.zeros(0, dtype=np.float32)
+            if isinstance(_mask, dict):
+                _mask_key = _mask[key]
+            elif isinstance(_mask, ImageConverter):
+                avg = (img[0][0] + img[0][1]) / 2
+                _mask_key = _mask.convert(avg, scales[key])
+            else:
+                _mask_key = _mask
             for i in range(n_set):
                 img0, img1 = img[i]
                 freq, fsc = _utils.fourier_shell_correlation(
-                    img0 * _mask, img1 * _mask, dfreq=dfreq
+                    img0 * _mask_key, img1 * _mask_key, dfreq=dfreq
                 )
                 fsc_all[f"FSC-{i}"] = fsc
 
